@@ -20,13 +20,13 @@ def fold(p):
 
 def _just(crate_name):
     with open(os.path.join(VERIF, "reference/justified_panics.json")) as fh:
-        return {(e["caller"], e["callee"]): e for e in json.load(fh).get(crate_name, [])}
+        return json.load(fh).get(crate_name, [])
 
 
 # ------------------------------------------------------------------ R1
 
 def panic_inventory(crate, syn, prop="C16"):
-    r = Result("C16.R1", "inventory of panic-capable call sites in every body of the proc-macro crate (unwrap/expect/index/slicing/panic!/parse_quote!/format_ident!/bounds asserts): each must be discharged by a dominating guard found in the source or by an exact justified (caller, callee, count) entry")
+    r = Result("C16.R1", "inventory of panic-capable call sites in every body of the proc-macro crate (unwrap/expect/index/slicing/panic!/parse_quote!/format_ident!/bounds asserts): each must be discharged by a dominating guard found in the MIR / the source, or justified by an entry keyed on the callee, on what it is applied to (`field syn::Field.ident`, `call Path::parent`, ..) and on the function the code belongs to (helpers it was split into included)")
     just = _just(crate.name)
     sites = []
     for b in crate.bodies:
@@ -34,21 +34,23 @@ def panic_inventory(crate, syn, prop="C16"):
             s["caller"] = fold(s["caller"])
             sites.append(s)
     guards = _syntactic_guards(crate, syn, r, prop)
+    from rules.export_panics import site_status
     for (caller, callee), ss in sorted(panics.group(sites).items()):
-        j = just.get((caller, callee))
         where = ", ".join(sorted({"%s:%s" % (s["file"], s["line"]) for s in ss}))
         g = guards.get((caller, callee))
-        if g is not None and g["ok"] and g["count"] >= len(ss):
-            status, reason = "discharged-by-guard", g["why"]
-        elif j and len(ss) <= j["count"]:
-            status, reason = "justified", j["reason"]
-        else:
+        st = [site_status(crate, s, just) for s in ss]
+        open_ = [s for s, (k, _) in zip(ss, st) if k == "open"]
+        if open_ and g is not None and g["ok"] and g["count"] >= len(open_):
+            status, reason, open_ = "discharged-by-guard", g["why"], []
+        elif open_:
             status, reason = "UNJUSTIFIED", None
-        r.inst(caller=caller, callee=callee, count=len(ss), where=where, status=status, reason=reason)
-        if status == "UNJUSTIFIED":
-            r.fail(prop, panics.key(caller, callee, len(ss)),
-                   "%d panic-capable call(s) to %s in the derive macro with no discharge or justification: a panic here is reported as `proc-macro derive panicked` instead of a diagnostic" % (len(ss), callee),
-                   ss[0]["file"], ss[0]["line"])
+        else:
+            status, reason = "/".join(sorted({k for k, _ in st})), next((w for _, w in st if w), None)
+        r.inst(caller=caller, callee=callee, count=len(ss), where=where, applied_to=sorted({s.get("origin", "") for s in ss}), status=status, reason=reason)
+        if open_:
+            r.fail(prop, panics.key(caller, callee, len(open_)),
+                   "%d panic-capable call(s) to %s (applied to: %s) in the derive macro with no discharge or justification: a panic here is reported as `proc-macro derive panicked` instead of a diagnostic" % (len(open_), callee, open_[0].get("origin")),
+                   open_[0]["file"], open_[0]["line"])
     r.stats = {"bodies": len(crate.bodies), "sites": len(sites)}
     r.floor = 12
     return r
